@@ -27,6 +27,8 @@ CLAIMED = {
          "T never below two engine iterations plus the send-queue delay; registration changes between datagrams; only the choice of who runs is simulated, the threads are real."),
  "C16": ("exploration", "3.C16", "Seeded search in three parts: linearizability of the threaded counter against a fetch-and-increment model with 2-6 real caller threads pre-empted at line level inside udp_socket.py across both wraps; a single-caller walk over two full cycles of both kinds on both implementations under drawn kind interleavings (every reachable counter state); and a wire monitor over every datagram of the full async client (both cycles wrap on the wire, new connections restart) and of the full blocking facade.",
          "Fewer than one full cycle is drawn concurrently; on an async connection draw and send share a callback so wire order is draw order."),
+ "C03": ("exploration", "3.C03", "A monitor on every status-block update of both structure classes (the client's async structure and the spa-side blocking structure), with every item watched through the public API, compares the notifications with an independent decode of old and new block: exactly once iff the decoded value (temperatures: stored word) changed, right sender/old/new, new block already visible, silent otherwise, watch-twice once, removed never. Workload: seeded STATP/refresh histories (item-aimed, straddling, identical, A-B-A, 1-byte form) under dup/reorder/loss for every shipped snapshot. The field-geometry part of C03 is a function of its input; the claim is about every update the simulated histories produce, coverage of geometries is a measured probe table.",
+         "Independent decoder works from each item's declaration; temperature 'changed' = stored word changed."),
 }
 PENDING = {}
 NA = {
